@@ -15,7 +15,7 @@ import (
 type BFS[S any] struct {
 	Name     string
 	Rule     string
-	Inits    func(r *Run) int
+	Inits    func(r *Run) []int // opaque initial-state ids (stable across tiers, used in replay files)
 	NOps     func(r *Run) int
 	New      func(init int) S
 	Apply    func(s S, op int, res *Result) (enabled bool)
@@ -103,7 +103,7 @@ func (b *BFS[S]) Run(r *Run) {
 	}
 	var frontier []node
 	var states int64
-	for i := 0; i < b.Inits(r); i++ {
+	for _, i := range b.Inits(r) {
 		s := b.New(i)
 		if add(fmt.Sprintf("%d#", i) + b.Key(s)) {
 			frontier = append(frontier, node{i, nil})
